@@ -2,3 +2,5 @@ import PmtilesModel.Props.C01
 import PmtilesModel.Props.C02
 import PmtilesModel.Obligations.C02
 import PmtilesModel.Props.C03
+import PmtilesModel.Props.C04
+import PmtilesModel.Obligations.C04
